@@ -26,7 +26,11 @@ def draw_read_channel(g, ascii_only=True, allow_cr=True, encodable=None):
         if cfg["codec"] == "utf-8-sig":
             cfg["explicit"] = g.random() < 0.3
         elif cfg["codec"] == "utf-8" and ascii_only:
-            cfg["explicit"] = g.random() < 0.5       # pure-ASCII text: default detection is also fine
+            # pure-ASCII text: either encoding= is given, or chardet is switched off (autodetect_encoding=False: lasio then
+            # tries ascii first).  chardet's guess for BOM-less files is not claimed by any property (it takes e.g.
+            # '+Y+M' in an ASCII file for UTF-7), so it is never relied upon.
+            cfg["explicit"] = g.random() < 0.5
+            cfg["no_chardet"] = not cfg["explicit"]
         else:
             cfg["explicit"] = True
     else:
@@ -52,6 +56,8 @@ def read_via(fs, text, cfg, kw=None, lasio_mod=None, tag="r"):
                 fh.close()
         if cfg.get("explicit"):
             kw["encoding"] = cfg["codec"]
+        elif cfg.get("no_chardet") or cfg["codec"] != "utf-8-sig":
+            kw["autodetect_encoding"] = False
         src = path if ch == "path" else pathlib.Path(path)
         return lasio.read(src, **kw)
     t = text if nl == "\n" else text.replace("\n", nl)
